@@ -23,7 +23,8 @@ for sid in sorted(os.listdir(os.path.join(HERE, "seeded"))):
         "; ".join(caught)[:230].replace("|", "/") or "-",
         ("missed at first by %s" % ",".join(missed_first)) if missed_first and not missed else
         ("%s: %s" % (m["status"], m["note"])) if m.get("status") in ("neutralised", "masked-by-known-finding", "not-caught", "outside-quantifier", "inconclusive") else
-        ("MISSED by %s" % ",".join(missed) if missed else "")))
+        ("neighbour check %s held (not its property)" % ",".join(missed)
+         if missed and m["breaks_property"] not in missed else ("MISSED by %s" % ",".join(missed) if missed else ""))))
 print("| Seeded change | Files | What it is (first line of the author's note) | Caught by (first keys) | Note |")
 print("|---|---|---|---|---|")
 print("\n".join(rows))
